@@ -84,6 +84,27 @@ import PsVerif
 #print axioms PsVerif.dispatch_consistent
 #print axioms PsVerif.zero_sensors_dummy
 #print axioms PsVerif.stale_flag_breaks_invariant
+-- C10
+#print axioms PsVerif.binary_offset
+#print axioms PsVerif.binary_offset_spread
+#print axioms PsVerif.rowNorm_nonneg
+#print axioms PsVerif.rowNorm_sq
+#print axioms PsVerif.cs_rowNorm
+#print axioms PsVerif.rowNorm_neg
+#print axioms PsVerif.rowNorm_eq_zero
+#print axioms PsVerif.smooth_lower_bound
+#print axioms PsVerif.row_bound
+#print axioms PsVerif.group_lasso_kkt_sufficient
+-- C11
+#print axioms PsVerif.takeCols_takeCols
+#print axioms PsVerif.takeCols_get
+#print axioms PsVerif.takeCols_shape
+#print axioms PsVerif.rep_rejects_gt
+#print axioms PsVerif.orthonormal_left_inverse
+#print axioms PsVerif.rank_k_reproduced
+#print axioms PsVerif.gram_pinv_left_inverse
+#print axioms PsVerif.rp_modes_in_span
+#print axioms PsVerif.identity_exact
 -- C12
 #print axioms PsVerif.constraintIndices_mem
 #print axioms PsVerif.constraintIndices_sublist
